@@ -851,7 +851,15 @@ class FnAnalysis:
         from .builder import appends
         fn, P = self.fn, self.P
         e = strip(e)
-        if not (e.k == 'call' and last(e.name) in ('new', 'with_capacity') and 'Vec' in (e.name or '')) or not e.site:
+        atoms0, const0 = {}, 0
+        if e.k == 'call' and last(e.name) in ('to_vec', 'to_owned') and e.args and e.site and e.site[1] == -1:
+            # `let mut v = z.to_vec();` : the vector starts with the elements of z
+            n0 = self.length(e.args[0], e.site[0], depth + 1)
+            if n0[0] == n0[1]:
+                const0 = n0[0]
+            else:
+                atoms0 = {'len(%s)' % self.cn.c(e.args[0]): 1}
+        elif not (e.k == 'call' and last(e.name) in ('new', 'with_capacity') and 'Vec' in (e.name or '')) or not e.site:
             return None
         cb = e.site[0]
         t = fn.blocks[cb]['term']
@@ -866,7 +874,7 @@ class FnAnalysis:
                     break
         KEEP_LEN = ('other:index_mut', 'other:deref_mut', 'other:as_mut_slice', 'other:iter_mut', 'other:copy_from_slice', 'other:clone_from_slice',
                     'other:fill', 'other:swap', 'other:reverse', 'other:sort', 'other:as_mut', 'other:as_mut_ptr', 'other:last_mut', 'other:first_mut', 'other:get_mut', 'setelem')
-        atoms, const = {}, 0
+        atoms, const = dict(atoms0), const0
         for a in appends(fn, P, L, cb):
             if a.kind in KEEP_LEN:
                 continue
